@@ -7,13 +7,16 @@ ID = "C10"
 TECHNIQUE = ("model-based testing: rapidcheck-generated sequential histories (store/fetch/rise/clear/stats/tick issued by 2..3 cache_over_ip "
              "clients, each with or without a local L1 cache, against 1..2 real in-process tcp_cache_service instances on loopback) run in "
              "lock-step with a single-copy reference model under a virtual clock; direct inspection of the server-side stores for placement "
-             "and generation stamps; generated short-read/short-write/EAGAIN schedules on the protocol sockets; ASan/UBSan")
+             "and generation stamps; generated short-read/short-write/EAGAIN schedules on the protocol sockets; a second generator speaks the wire "
+             "protocol directly (complete frames with lying length fields / unknown opcodes) against a model of the header semantics; ASan/UBSan")
 LEVEL = "exploration"
 LEVEL_TEXT = ("Every fetch of every client (and a closing sweep of all clients x all keys) must return exactly the value, trigger set and "
               "deadline of the last completed store of any client, or miss when that entry was risen, cleared, replaced by an expired one or "
               "has expired; the generation a client hands out must be the one the holding server has now; every live key is on exactly one "
               "listed server, the same for all clients; stats equal the model's counts; batches of >= 56 random keys of one length must be "
-              "found by a second client and must not all land on one of two servers.")
+              "found by a second client and must not all land on one of two servers. Raw frames: a store is accepted iff its three length "
+              "fields add up to the frame size and the key is non-empty, and then stores exactly the announced slices; every other frame "
+              "is answered `error` (or served as documented) and the server-side store equals the model after every frame.")
 LEVEL_NOTE = ("Sampling of sequential histories only: clients never operate concurrently (DESIGN.md C10/L), servers are not restarted and "
               "connections are not broken (the reconnect path of messenger::transmit is not reached). Keys and trigger names are NUL-free "
               "and keys non-empty (the wire format is NUL-terminated strings). A cache server that restarts "
@@ -22,30 +25,47 @@ DESIGN_REF = "3/C10"
 RULE = ("case = (1..2 servers, list order, 2..3 clients each with L1 none/unlimited/limited to 1..3 entries, I/O cut density + seed, "
         "alphabet of 1..5 keys and 1..4 extra trigger names: ASCII / binary 1..600 bytes, history of 1..40 (thorough: 70) operations; values "
         "0 B..140 KB with and without NUL bytes, trigger lists up to ~260 names, relative deadlines -1..1000 s and absolute ones up to "
-        "2^63-1). Non-trivial: the history contains a fetch by a client whose L1 holds a live copy of the key that ANOTHER client has since "
-        "replaced (store), invalidated (rise) or cleared. Distinct = hash of the serialised case. The spread group counts every batch.")
+        "2^63-1); frames: 1..13 frames store/fetch/rise/clear/stats/unknown/session opcodes, 45 % of the stores with lying length fields. "
+        "Non-trivial: the history contains a fetch by a client whose L1 holds a live copy of the key that ANOTHER client has since "
+        "replaced (store), invalidated (rise) or cleared; frames: the sequence contains a store whose length fields do not add up. Distinct = "
+        "hash of the serialised case. The spread group counts every batch.")
 
 HERE = os.path.dirname(os.path.dirname(os.path.abspath(__file__)))
-KNOWN = {  # signature of a (fixed) finding -> (class name for C10_EXCLUDE_KNOWN, regression case)
-    "server:store-with-empty-trigger-name-refused": ("emptytrig", "c10_netcache.known-empty-trigger-name.case"),
-    "l1:refresh-merges-stale-triggers": ("trigmerge", "c10_netcache.known-l1-refresh-merges-triggers.case"),
+KNOWN = {  # signature of a finding -> (class name for C10_EXCLUDE_KNOWN, regression case, searched unless listed as open)
+    "server:store-with-empty-trigger-name-refused": ("emptytrig", "c10_netcache.known-empty-trigger-name.case", True),       # fixed: 21f823e
+    "l1:refresh-merges-stale-triggers": ("trigmerge", "c10_netcache.known-l1-refresh-merges-triggers.case", True),           # fixed: 43668a5
+    # reported, outside the statement's quantifier (needs a hostile peer): excluded by construction until known_findings.json lists it as fixed
+    "server:store-frame-length-wraparound": ("framewrap", "c10_netcache.known-store-frame-length-wraparound.case", False),
 }
 
 
 def known_state():
-    """Both defect classes are fixed in /repo and searched like any other input.  A class is excluded by construction again only
-    while known_findings.json lists its signature with status "known" (an open finding) or C10_EXCLUDE_KNOWN names it.  The
-    regression cases always run: they must pass on a fixed tree and carry the finding's signature otherwise."""
-    exclude = set(x for x in os.environ.get("C10_EXCLUDE_KNOWN", "").split(",") if x)
+    """Returns (classes excluded by construction, regression cases to run).  The two classes fixed in /repo are searched like any other
+    input unless known_findings.json lists their signature with status "known"; their regression cases always run (must pass on a fixed
+    tree).  A class that is still open is excluded until known_findings.json lists its signature as fixed; its regression case runs as
+    soon as the signature is listed (known: KNOWN-FINDING, exit 0; fixed: must pass).  C10_EXCLUDE_KNOWN / C10_INCLUDE_KNOWN override."""
+    force_ex = set(x for x in os.environ.get("C10_EXCLUDE_KNOWN", "").split(",") if x)
+    force_in = set(x for x in os.environ.get("C10_INCLUDE_KNOWN", "").split(",") if x)
     try:
         listed = [k for k in json.load(open(os.path.join(HERE, "known_findings.json"))).get("findings", []) if k.get("property") == ID]
     except Exception:
         listed = []
-    for sig, (cls, case) in KNOWN.items():
+    exclude, regress = set(), []
+    for sig, (cls, case, searched) in KNOWN.items():
+        status = None
         for k in listed:
-            if verif.sig_match(k.get("signature", ""), sig) and k.get("status") == "known":
-                exclude.add(cls)
-    return ",".join(sorted(exclude)), sorted(case for (cls, case) in KNOWN.values())
+            if verif.sig_match(k.get("signature", ""), sig):
+                status = k.get("status")
+        inc = (status != "known") if searched else (status == "fixed")
+        if cls in force_in or "all" in force_in:
+            inc = True
+        if cls in force_ex:
+            inc = False
+        if not inc:
+            exclude.add(cls)
+        if searched or status is not None or inc:
+            regress.append(case)
+    return ",".join(sorted(exclude)), sorted(regress)
 
 
 def specs():
@@ -53,30 +73,35 @@ def specs():
 
 
 def budget(tier):
-    # (history processes, histories per process, spread processes, batches per process)
-    return (12, 1500, 2, 300) if tier == "quick" else (14, 12000, 2, 4000)
+    # (history processes, histories per process, spread processes, batches per process, frame processes, frame sequences per process)
+    return (11, 1200, 2, 300, 2, 8000) if tier == "quick" else (12, 12000, 2, 4000, 2, 150000)
 
 
 def units(bins, tier, seed):
     b = bins["c10_netcache"]
-    nh, ch, ns, cs = budget(tier)
+    nh, ch, ns, cs, nf, cf = budget(tier)
     exc, regress = known_state()
     us = []
+    # hard_rss_limit_mb: a mutated server that loses the framing of the byte stream resizes its input buffer to whatever 32 bits it reads
+    asan = verif.san_env()["ASAN_OPTIONS"] + ":hard_rss_limit_mb=2000"
     for i in range(nh):
         us.append(Unit("c10_netcache.hist%d" % i, [b, "--only", "history"],
-                       env={"C10_EXCLUDE_KNOWN": exc, "RC_PARAMS": rc_params(seed * 1000 + i, ch, 200)}, group="history", timeout=5400))
+                       env={"ASAN_OPTIONS": asan, "C10_EXCLUDE_KNOWN": exc, "RC_PARAMS": rc_params(seed * 1000 + i, ch, 200)}, group="history", timeout=5400))
     for i in range(ns):
         us.append(Unit("c10_netcache.spread%d" % i, [b, "--only", "spread"],
-                       env={"C10_EXCLUDE_KNOWN": exc, "RC_PARAMS": rc_params(seed * 1000 + 500 + i, cs, 200)}, group="spread", timeout=5400))
+                       env={"ASAN_OPTIONS": asan, "C10_EXCLUDE_KNOWN": exc, "RC_PARAMS": rc_params(seed * 1000 + 500 + i, cs, 200)}, group="spread", timeout=5400))
+    for i in range(nf):
+        us.append(Unit("c10_netcache.frames%d" % i, [b, "--only", "frames"],
+                       env={"ASAN_OPTIONS": asan, "C10_EXCLUDE_KNOWN": exc, "RC_PARAMS": rc_params(seed * 1000 + 700 + i, cf, 200)}, group="frames", timeout=5400))
     for case in regress:
         us.append(Unit("c10_netcache.regress-" + case.split(".")[1], [b, "--regress", os.path.join(HERE, "replays", ID, case)],
-                       env={"C10_EXCLUDE_KNOWN": exc}, group="regress"))
+                       env={"ASAN_OPTIONS": asan, "C10_EXCLUDE_KNOWN": exc}, group="regress"))
     return us
 
 
 def floor(tier):
-    nh, ch, ns, cs = budget(tier)
-    return {"history": nh * ch, "spread": ns * cs}
+    nh, ch, ns, cs, nf, cf = budget(tier)
+    return {"history": nh * ch, "spread": ns * cs, "frames": nf * cf}
 
 
 def run(tier, seed):
@@ -129,4 +154,6 @@ MUTATIONS = [
     dict(name="revert-fix-empty-trigger-name-refused", edits=[(SV, "\t\t\tunsigned size=strlen(start);\n\t\t\tstd::string tmp;", "\t\t\tunsigned size=strlen(start);\n\t\t\tif(size==0) {\n\t\t\t\treturn false;\n\t\t\t}\n\t\t\tstd::string tmp;")]),
     # reverts the fix of l1:refresh-merges-stale-triggers (43668a5)
     dict(name="revert-fix-l1-refresh-merges-triggers", edits=[(CO, "\t\t\tif(l1_->fetch(key,a,&l1_triggers,timeout_out,gen)) {", "\t\t\tif(l1_->fetch(key,a,tags,timeout_out,gen)) {")]),
+    # own (frames group): the store frame validation accepts length fields that add up to less than the frame
+    dict(name="server-store-accepts-short-length-sum", edits=[(SV, "+hin_.operations.store.triggers_len != hin_.size", "+hin_.operations.store.triggers_len > hin_.size")]),
 ]
